@@ -221,6 +221,11 @@ func (e *Env) evalIdent(name string) SVal {
 			}
 		}
 		e.fail("_visited outside a map range loop")
+	case "_loopalloc":
+		if e.loop == nil {
+			e.fail("_loopalloc outside a loop")
+		}
+		return mathInt(e.loop.entryAlloc)
 	case "_alloc":
 		return mathInt(e.cur.alloc)
 	}
@@ -992,6 +997,42 @@ func (e *Env) evalCall(n *ECall) SVal {
 			v.st = e.old
 		}
 		return v
+	case "arrof":
+		v := e.eval(n.Args[0])
+		return mathInt("(s-arr " + v.t + ")")
+	case "atentry":
+		// value of an expression when the enclosing loop was entered
+		if e.loop == nil || e.loop.entryState == nil {
+			e.fail("atentry outside a loop invariant")
+		}
+		savedCur := e.cur
+		savedOv := map[*ssa.Phi]string{}
+		savedVals := map[*ssa.Phi]string{}
+		for ph, t := range e.loop.entryPhis {
+			savedOv[ph] = vc.phiOverride[ph]
+			if cur, ok := vc.vals[ph]; ok {
+				savedVals[ph] = cur
+				delete(vc.vals, ph)
+			}
+			vc.phiOverride[ph] = t
+		}
+		e.cur = e.loop.entryState
+		v := e.eval(n.Args[0])
+		e.cur = savedCur
+		for ph := range e.loop.entryPhis {
+			if savedOv[ph] == "" {
+				delete(vc.phiOverride, ph)
+			} else {
+				vc.phiOverride[ph] = savedOv[ph]
+			}
+			if sv, ok := savedVals[ph]; ok {
+				vc.vals[ph] = sv
+			}
+		}
+		if v.st == nil {
+			v.st = e.loop.entryState
+		}
+		return v
 	case "iterold":
 		if e.iterOld == nil {
 			e.fail("iterold outside loop preservation")
@@ -1077,14 +1118,42 @@ func (e *Env) evalCall(n *ECall) SVal {
 			}
 		}
 		return mathBool(fmt.Sprintf("(= %s 0)", v.t))
+	case "deref":
+		// deref(p): content of the cell p points to (non-struct element types)
+		v := e.eval(n.Args[0])
+		pt, ok := v.typ.Underlying().(*types.Pointer)
+		if !ok {
+			e.fail("deref of non-pointer")
+		}
+		l := vc.locOfRef(v.t, pt.Elem())
+		if l.kind == lStruct {
+			return SVal{t: v.t, typ: v.typ, sort: "Int", st: v.st, lval: true}
+		}
+		return SVal{t: vc.load(e.stOf(v), l), typ: pt.Elem(), sort: vc.d.sortOf(pt.Elem()), st: v.st}
+	case "container":
+		// container(p, "T", "f"): the *T whose struct-typed field f is stored at address p
+		v := e.eval(n.Args[0])
+		T := e.parseType(typeArg(n.Args[1]))
+		fname := n.Args[2].(*EStr).Val
+		s, ok := isStruct(T)
+		if !ok {
+			e.fail("container: %s is not a struct", T)
+		}
+		for i := 0; i < s.NumFields(); i++ {
+			if s.Field(i).Name() == fname {
+				en := vc.d.embName(T, i)
+				return SVal{t: fmt.Sprintf("(own.%s %s)", en, v.t), typ: types.NewPointer(T), sort: "Int", st: v.st}
+			}
+		}
+		e.fail("container: no field %s", fname)
 	case "typeis":
 		// typeis(x, T): dynamic type of interface value x is T
 		v := e.eval(n.Args[0])
-		T := e.parseType(exprString(n.Args[1]))
+		T := e.parseType(typeArg(n.Args[1]))
 		return mathBool(fmt.Sprintf("(and (> %s 0) (= (typeof %s) %d))", v.t, v.t, vc.d.typeTag(T)))
 	case "unbox":
 		v := e.eval(n.Args[0])
-		T := e.parseType(exprString(n.Args[1]))
+		T := e.parseType(typeArg(n.Args[1]))
 		bn := vc.boxName(T)
 		srt := vc.d.sortOf(T)
 		vc.d.declFun(bn, fmt.Sprintf("(declare-fun %s (%s) Int)", bn, srt))
@@ -1104,7 +1173,7 @@ func (e *Env) evalCall(n *ECall) SVal {
 		v := e.eval(n.Args[0])
 		nm := n.Args[1].(*EStr).Val
 		idx := n.Args[2].(*EInt).Val
-		T := e.parseType(exprString(n.Args[3]))
+		T := e.parseType(typeArg(n.Args[3]))
 		key := e.pkgScope().Path() + "." + nm
 		fvn := fmt.Sprintf("fv.%s.%s", sanitize(key), idx)
 		vc.d.declFun(fvn, fmt.Sprintf("(declare-fun %s (Int) %s)", fvn, vc.d.sortOf(T)))
@@ -1523,4 +1592,12 @@ func (e *Env) structLocs(ref string, T types.Type) []modLoc {
 		}
 	}
 	return res
+}
+
+// typeArg: a type given either as an expression (Func, idx.Event) or as a string ("*StoreWithFn").
+func typeArg(x Expr) string {
+	if s, ok := x.(*EStr); ok {
+		return s.Val
+	}
+	return exprString(x)
 }
